@@ -311,8 +311,11 @@ def run_c04(F, R, tier='quick'):
     check_windows(F, R, spec.WINDOW_VIEWS_C04, 'W1')
     check_accumulators(F, R, {'Sma': 1, 'Alma': 2})
     ema_seed_and_alpha(F, R)
-    from .e_lti_props import ema_recurrence
+    from .e_lti_props import ema_recurrence, ema_transient, convex_transient
     ema_recurrence(F, R, tier)
+    ema_transient(F, R, tier)
+    convex_transient(F, R, tier)
+    R.floor('B1-convex', 3)
     alma_params(F, R)
     inert_none_path(F, R, ['Sma', 'Ema', 'Alma'], 'Q1')
     no_raw_in_state(F, R, ['Sma', 'Ema', 'Alma'], 'R2s')
